@@ -861,7 +861,22 @@ class Path:
         if self.sliced is not None:
             raise ValueError("already sliced")
 
-        self.sliced = self._get_related(var_set)
+        sliced = self._get_related(var_set)
+
+        # `related` only points backwards (to the earlier conditions a condition depends on).
+        # a condition added later can still constrain a state variable through a shared variable
+        # (e.g. `x < y` followed by `y == 5`), so close the set under "shares a variable with".
+        conds = list(self.conditions)
+        worklist = list(sliced)
+        while worklist:
+            idx = worklist.pop()
+            for var in self.get_var_set(conds[idx]):
+                for other in self.var_to_conds[var]:
+                    if other not in sliced:
+                        sliced.add(other)
+                        worklist.append(other)
+
+        self.sliced = sliced
 
     def __deepcopy__(self, memo):
         raise NotImplementedError("use the branch() method instead of deepcopy()")
